@@ -211,6 +211,10 @@ SRCE_UNITS = [
     # C05: IPRange.cidrs, cidr_merge (items: IPNetwork or IPRange objects = Merge.mitem; the range tuples = Merge.rtuple)
     (IPFILE, "pysrc_merge_gen.v", "", " Model.Merge Model.SrcPreludeSRCE Model.SrcPreludeMerge",
      [("IPRange", "cidrs", {}), (None, "cidr_merge", {"ip_addrs": "list mitem"})]),
+    # C11: the generator IPNetwork.subnet (prologue + one resumption), next / previous, iter_hosts
+    (IPFILE, "pysrc_subnet_gen.v", "", " Model.PySlice Model.ListLike Model.SrcPreludeSRCE",
+     [("IPNetwork", "subnet:start", {"prefixlen": "int", "count": "optint", "fmt": "optint"}), ("IPNetwork", "subnet:next", {}),
+      ("IPNetwork", "next", {"step": "int"}), ("IPNetwork", "previous", {"step": "int"}), ("IPNetwork", "iter_hosts", {})]),
 ]
 UNITS = UNITS + SRCE_UNITS
 FILES = FILES + tuple(u[1] for u in SRCE_UNITS)
